@@ -887,11 +887,7 @@ func (env *SpecEnv) realCall(n *ast.CallExpr) (SV, bool) {
 	for _, a := range n.Args {
 		args = append(args, env.eval(a))
 	}
-	for i := range args {
-		if i < len(fn.Params) {
-			args[i] = retype(args[i], fn.Params[i].Type())
-		}
-	}
+	e.coerceArgs(fn, args)
 	return e.specCall(env, fn, args), true
 }
 
@@ -1009,4 +1005,18 @@ func resolveTypeString(pkg *types.Package, s string) (types.Type, error) {
 		return nil, err
 	}
 	return resolveTypeExpr(pkg, x)
+}
+
+// coerceArgs gives spec-level call arguments the parameter types of fn; a pointer passed where fn takes an interface
+// is converted implicitly, as Go does.
+func (e *Exec) coerceArgs(fn *ssa.Function, args []SV) {
+	for i := range args {
+		if i < len(fn.Params) {
+			if pv, ok := args[i].(*PtrV); ok && pv.Addr != nil && types.IsInterface(fn.Params[i].Type()) {
+				args[i] = &IfaceV{Ty: fn.Params[i].Type(), Tag: e.typeID(pv.Ty), Ref: pv.Addr}
+				continue
+			}
+			args[i] = retype(args[i], fn.Params[i].Type())
+		}
+	}
 }
